@@ -169,6 +169,12 @@ type Outer struct {
 	Extra string
 }
 
+// Wrap's only field is an embedded exported struct; it overrides one of that struct's methods with the same
+// method-set size.
+type Wrap struct{ Base }
+
+func (w Wrap) Describe() string { return fmt.Sprintf("wrap#%d", w.ID) }
+
 func handObjects() []interface{} {
 	b := Base{ID: 7, Title: "bt", hid: "h"}
 	top := Top{Mid: Mid{Base: b, Level: 3}, Name: "top", Title: "tt"}
@@ -199,6 +205,7 @@ func handObjects() []interface{} {
 		WithIface{Desc: Base{ID: 3, Title: "wi"}, K: 1}, &WithIface{Desc: &Base{ID: 4}, K: 2},
 		Fetcher{N: 2}, &Fetcher{N: 3},
 		WithIface{K: 9}, &WithIface{K: 10},
+		Wrap{Base{ID: 11, Title: "wt"}}, &Wrap{Base{ID: 12}},
 		Outer{inner: inner{ID: 5, Created: "then"}, inner2: &inner2{By: "me"}, Extra: "ox"}, &Outer{inner: inner{ID: 6}, Extra: "oy"},
 		map[string]interface{}{"1.1": "a", "1.10": "b", "1234": "c", "01234": "d", "1e3": "e", "1000": "f", "A": "g"}, map[string]string{"1.10": "sb", "01": "s1", "1": "s2"},
 		Shadow{EmbV: EmbV{Value: 3, Sum: "field-sum", Scale: 1.5}, K: 1}, &Shadow{EmbV: EmbV{Value: 4, Sum: "field-sum-2"}, K: 2},
